@@ -1,11 +1,22 @@
 /-
   D128/Proofs/LayoutF.lean — `Gen.digits.fmtF` (Go: `func (d *digits) fmtF`, /repo/format.go:651) at the
   byte level, for every precision, width and flag combination.
+
+  * `Ly.fmtF_t3`, `Ly.fmtF_t2`, `Ly.fmtF_t1`, `Ly.fmtF_unfold` : the function cut into stages (text
+        copied from the generated source, tied to it by `fmtF_unfold : … := rfl`)
+  * `Ly.push3_loop_down` : `for ; i > 2; i -= 3 { buf = append(buf, '0', '0', '0') }`
+  * `Ly.lead_loop`       : `for ; dp < 0; dp++ { prec--; buf = append(buf, '0') }`
+  * `Ly.dpF`, `Ly.intF`, `Ly.fracF`, `Ly.bodyF` : the bytes each stage appends
+  * `Ly.fmtF_t3_eq`, `Ly.fmtF_t2_eq`, `Ly.fmtF_t1_eq`, `Ly.intF_length`, `Ly.fracF_length`,
+    `Ly.bodyF_length`
+  * `Ly.fmtF_eq`   : `fmtF d buf prec width … = .ok (d, padOut d.neg (buf ++ bodyF …) |buf| width …)` —
+        no panic (width ≥ 0), termination, `d` unchanged
 -/
 import D128.Proofs.LayoutE
 
 set_option autoImplicit false
 set_option maxRecDepth 4096
+set_option linter.unusedVariables false
 
 namespace Ly
 open Dg Gen
@@ -38,18 +49,9 @@ def fmtF_t3 (d : digits) (buf : Go.Bytes) (prec dp start width : Int64) (forceDP
   buf := r_6
   return (d, buf)
 
-/-- sign and integer digits of `fmtF`, then `fmtF_t3` -/
-def fmtF_t1 (d : digits) (buf : Go.Bytes) (prec width : Int64) (forceDP printSign padSign padRight padZero : Bool) : Go.GoM (digits × Go.Bytes) := do
+/-- integer digits of `fmtF`, then `fmtF_t3` -/
+def fmtF_t2 (d : digits) (buf : Go.Bytes) (prec start width : Int64) (forceDP printSign padSign padRight padZero : Bool) : Go.GoM (digits × Go.Bytes) := do
   let mut buf : Go.Bytes := buf
-  let mut start : Int64 := (Go.len buf)
-  if d.neg then
-    buf := (buf.push (45 : UInt8))
-  else
-    if printSign then
-      buf := (buf.push (43 : UInt8))
-    else
-      if padSign then
-        buf := (buf.push (32 : UInt8))
   let mut dp : Int64 := (0 : Int64)
   if (d.ndig == (0 : Int64)) then
     buf := (buf.push (48 : UInt8))
@@ -72,6 +74,20 @@ def fmtF_t1 (d : digits) (buf : Go.Bytes) (prec width : Int64) (forceDP printSig
     else
       buf := (buf.push (48 : UInt8))
   fmtF_t3 d buf prec dp start width forceDP printSign padSign padRight padZero
+
+/-- sign of `fmtF`, then `fmtF_t2` -/
+def fmtF_t1 (d : digits) (buf : Go.Bytes) (prec width : Int64) (forceDP printSign padSign padRight padZero : Bool) : Go.GoM (digits × Go.Bytes) := do
+  let mut buf : Go.Bytes := buf
+  let mut start : Int64 := (Go.len buf)
+  if d.neg then
+    buf := (buf.push (45 : UInt8))
+  else
+    if printSign then
+      buf := (buf.push (43 : UInt8))
+    else
+      if padSign then
+        buf := (buf.push (32 : UInt8))
+  fmtF_t2 d buf prec start width forceDP printSign padSign padRight padZero
 
 theorem fmtF_unfold (d : digits) (buf : Go.Bytes) (prec width : Int64) (forceDP printSign padSign padRight padZero : Bool) :
     Gen.digits.fmtF d buf prec width forceDP printSign padSign padRight padZero = (do
@@ -250,5 +266,198 @@ theorem fmtF_t3_eq (d : digits) (buf : Go.Bytes) (prec dp start width : Int64)
     · simp only [if_true]
       show (digits.pad d _ start width ps pds pr pz >>= fun p => pure (p.1, p.2)) = _
       rw [bind_pair_eta, push1]
+
+/-- everything `fmtF` appends before padding -/
+def bodyF (d : digits) (prec : Int) (fdp ps pds : Bool) : List UInt8 :=
+  signBytes d.neg ps pds ++ (intF d ++ fracF d (dpF d) prec fdp)
+
+theorem app_app (b : Go.Bytes) (S I L : List UInt8) :
+    b ++ S.toArray ++ I.toArray ++ L.toArray = b ++ (S ++ (I ++ L)).toArray := by
+  apply Array.ext'; simp
+
+theorem fmtF_t2_eq (d : digits) (buf : Go.Bytes) (prec start width : Int64)
+    (fdp ps pds pr pz : Bool) (hexp : ExpOK d) (h0 : 0 ≤ d.ndig.toInt)
+    (h39 : d.ndig.toInt ≤ 39) (hp : -2 ^ 62 ≤ prec.toInt) :
+    fmtF_t2 d buf prec start width fdp ps pds pr pz =
+      Gen.digits.pad d (buf ++ (intF d ++ fracF d (dpF d) prec.toInt fdp).toArray)
+        start width ps pds pr pz := by
+  obtain ⟨hx0, hx1⟩ := hexp
+  have z0 : (0 : Int64).toInt = 0 := by decide
+  have hz : (d.ndig == 0) = decide (d.ndig.toInt = 0) := by
+    by_cases h : d.ndig.toInt = 0
+    · rw [(i64_beq_zero d.ndig).mpr h]; simp [h]
+    · have : ¬ (d.ndig == 0) = true := fun e => h ((i64_beq_zero d.ndig).mp e)
+      simp [h, this]
+  have hdp : (d.ndig + d.exp).toInt = d.ndig.toInt + d.exp.toInt :=
+    i64_add _ _ (by omega) (by omega)
+  unfold fmtF_t2 intF
+  rw [hz]
+  by_cases hn : d.ndig.toInt = 0
+  · have hdpF : dpF d = 0 := by unfold dpF; rw [if_pos hn]
+    simp only [hn, decide_true, if_true]
+    rw [fmtF_t3_eq _ _ _ _ _ _ _ _ _ _ _ h0 h39 hp (by rw [z0]; omega), z0, hdpF, push1,
+      Array.append_assoc]
+    congr 1; apply Array.ext'; simp
+  · have hdpF : dpF d = d.ndig.toInt + d.exp.toInt := by unfold dpF; rw [if_neg hn]
+    simp only [hn, decide_false, Bool.false_eq_true, if_false]
+    have hgt0 : (d.ndig + d.exp > 0) ↔ 0 < dpF d := by
+      show (0 : Int64) < d.ndig + d.exp ↔ _
+      rw [i64_lt, hdp, hdpF, z0]
+    have hgt1 : (d.ndig > d.ndig + d.exp) ↔ dpF d < d.ndig.toInt := by
+      show d.ndig + d.exp < d.ndig ↔ _
+      rw [i64_lt, hdp, hdpF]
+    by_cases hpos : 0 < dpF d
+    · simp only [hgt0, hpos, decide_true, if_true]
+      by_cases hlt : dpF d < d.ndig.toInt
+      · simp only [hgt1, hlt, decide_true, if_true]
+        rw [vslice_digs d 0 (Go.idx (d.ndig + d.exp)) 0 (dpF d).toNat rfl
+          (by show (d.ndig + d.exp).toInt = _; omega) (by omega) (by omega)]
+        simp only [ok_bind]
+        rw [fmtF_t3_eq _ _ _ _ _ _ _ _ _ _ _ h0 h39 hp (by omega), hdp, ← hdpF, Array.append_assoc]
+        congr 1; apply Array.ext'; simp
+      · simp only [hgt1, hlt, decide_false, Bool.false_eq_true, if_false]
+        rw [vslice_digs d 0 (Go.idx d.ndig) 0 d.ndig.toInt.toNat rfl
+          (by show d.ndig.toInt = _; omega) (by omega) (by omega)]
+        simp only [ok_bind]
+        have hsub : (d.ndig + d.exp - d.ndig).toInt = dpF d - d.ndig.toInt := by
+          rw [i64_sub _ _ (by omega) (by omega), hdp, hdpF]
+        rw [push3_loop_down 48 _ (fun s => rfl) _ _ (by omega)]
+        simp only [ok_bind]
+        rw [push_loop_down 48 _ (fun s => rfl)]
+        simp only [ok_bind]
+        rw [fmtF_t3_eq _ _ _ _ _ _ _ _ _ _ _ h0 h39 hp (by omega), hdp, ← hdpF]
+        have e3 : (3 : Int64).toInt = 3 := by decide
+        have hmod : ((d.ndig + d.exp - d.ndig) % 3).toInt = (dpF d - d.ndig.toInt) % 3 := by
+          rw [Int64.toInt_mod, hsub, e3, Int.tmod_eq_emod_of_nonneg (by omega)]
+        rw [hmod, hsub]
+        congr 1
+        apply Array.ext'
+        have : (dpF d - d.ndig.toInt).toNat =
+            3 * ((dpF d - d.ndig.toInt).toNat / 3) + ((dpF d - d.ndig.toInt) % 3).toNat := by omega
+        simp only [Array.toList_append, Array.toList_replicate, List.append_assoc]
+        congr 2
+        rw [← List.append_assoc]
+        congr 1
+        rw [List.replicate_append_replicate, ← this]
+    · simp only [hgt0, hpos, decide_false, Bool.false_eq_true, if_false]
+      rw [fmtF_t3_eq _ _ _ _ _ _ _ _ _ _ _ h0 h39 hp (by omega), hdp, ← hdpF, push1,
+        Array.append_assoc]
+      congr 1; apply Array.ext'; simp
+
+theorem fmtF_t1_eq (d : digits) (buf : Go.Bytes) (prec width : Int64)
+    (fdp ps pds pr pz : Bool) (hexp : ExpOK d) (h0 : 0 ≤ d.ndig.toInt)
+    (h39 : d.ndig.toInt ≤ 39) (hp : -2 ^ 62 ≤ prec.toInt) :
+    fmtF_t1 d buf prec width fdp ps pds pr pz =
+      Gen.digits.pad d (buf ++ (bodyF d prec.toInt fdp ps pds).toArray)
+        (Go.len buf) width ps pds pr pz := by
+  have key : ∀ S : List UInt8,
+      fmtF_t2 d (buf ++ S.toArray) prec (Go.len buf) width fdp ps pds pr pz =
+      Gen.digits.pad d (buf ++ (S ++ (intF d ++ fracF d (dpF d) prec.toInt fdp)).toArray)
+        (Go.len buf) width ps pds pr pz := by
+    intro S
+    rw [fmtF_t2_eq _ _ _ _ _ _ _ _ _ _ hexp h0 h39 hp]
+    congr 1
+    apply Array.ext'; simp
+  have e0 : buf = buf ++ ([] : List UInt8).toArray := by simp
+  unfold fmtF_t1 bodyF signBytes
+  cases hneg : d.neg
+  · cases ps
+    · cases pds
+      · simp only [Bool.false_eq_true, if_false]
+        have := key []
+        rw [← e0] at this
+        exact this
+      · simp only [Bool.false_eq_true, if_false, if_true]
+        rw [push1]; exact key [32]
+    · simp only [Bool.false_eq_true, if_false, if_true]
+      rw [push1]; exact key [43]
+  · simp only [if_true]
+    rw [push1]; exact key [45]
+
+theorem intF_length (d : digits) (h0 : 0 ≤ d.ndig.toInt) (h39 : d.ndig.toInt ≤ 39) :
+    1 ≤ (intF d).length ∧ (intF d).length ≤ 1 + (dpF d).toNat := by
+  unfold intF
+  have hd := digs_length d 0 d.ndig.toInt.toNat (by omega)
+  have hd' := digs_length d 0 (dpF d).toNat
+  split_ifs <;>
+    (try simp only [List.length_cons, List.length_append, List.length_replicate, List.length_nil]) <;>
+    omega
+
+theorem fracF_length (d : digits) (dp prec : Int) (fdp : Bool) (h0 : 0 ≤ d.ndig.toInt)
+    (h39 : d.ndig.toInt ≤ 39) : (fracF d dp prec fdp).length ≤ 40 + (-dp).toNat + prec.toNat := by
+  unfold fracF
+  have hd := digs_length d (max dp 0).toNat d.ndig.toInt.toNat (by omega)
+  split_ifs <;>
+    simp only [List.length_cons, List.length_append, List.length_replicate, List.length_nil, hd] <;>
+    omega
+
+theorem bodyF_length (d : digits) (prec : Int) (fdp ps pds : Bool)
+    (h0 : 0 ≤ d.ndig.toInt) (h39 : d.ndig.toInt ≤ 39) :
+    (bodyF d prec fdp ps pds).length ≤ 42 + (dpF d).natAbs + prec.toNat ∧
+    (signBytes d.neg ps pds).length + 1 ≤ (bodyF d prec fdp ps pds).length := by
+  unfold bodyF
+  have h1 := fracF_length d (dpF d) prec fdp h0 h39
+  have h2 := intF_length d h0 h39
+  have h3 := signBytes_length d.neg ps pds
+  simp only [List.length_append]
+  split_ifs at h3 <;> omega
+
+/-- **`fmtF` at the byte level**: never panics (for a non-negative width), terminates, leaves `d`
+alone and returns the buffer with `bodyF` appended and padded to `width` by `padOut`. -/
+theorem fmtF_eq (d : digits) (buf : Go.Bytes) (prec width : Int64)
+    (fdp ps pds pr pz : Bool) (hx0 : -2 ^ 58 ≤ d.exp.toInt) (hx1 : d.exp.toInt ≤ 2 ^ 58)
+    (h0 : 0 ≤ d.ndig.toInt) (h39 : d.ndig.toInt ≤ 39) (W : Nat) (hW : width.toInt = W)
+    (hW' : W < 2 ^ 62) (hb : buf.size < 2 ^ 61) (hp0 : -2 ^ 62 ≤ prec.toInt)
+    (hp : prec.toInt < 2 ^ 58) :
+    Gen.digits.fmtF d buf prec width fdp ps pds pr pz =
+      .ok (d, padOut d.neg (buf ++ (bodyF d prec.toInt fdp ps pds).toArray) buf.size W
+        ps pds pr pz) := by
+  have hexp : ExpOK d := ⟨by omega, by omega⟩
+  have hlen := len_toInt buf (by omega)
+  obtain ⟨hl1, hl2⟩ := bodyF_length d prec.toInt fdp ps pds h0 h39
+  have hsl := signBytes_length d.neg ps pds
+  have hdpb : (dpF d).natAbs ≤ 39 + 2 ^ 58 := by
+    unfold dpF; split <;> omega
+  have main : fmtF_t1 d buf prec width fdp ps pds pr pz =
+      .ok (d, padOut d.neg (buf ++ (bodyF d prec.toInt fdp ps pds).toArray) buf.size W
+        ps pds pr pz) := by
+    rw [fmtF_t1_eq _ _ _ _ _ _ _ _ _ hexp h0 h39 hp0]
+    apply pad_eq _ _ _ _ _ _ _ _ buf.size W hlen hW
+    · simp
+    · intro hs
+      have : (d.neg || ps || pds) = true := by
+        simp only [Bool.and_eq_true] at hs; exact hs.2
+      rw [if_pos this] at hsl
+      simp; omega
+    · simp; omega
+    · exact hW'
+  rw [fmtF_unfold]
+  by_cases hz : (Go.len buf == 0) = true
+  · have hsz : buf.size = 0 := by
+      have := (i64_beq_zero _).mp hz
+      rw [hlen] at this; omega
+    have hbuf : buf = #[] := Array.eq_empty_of_size_eq_zero hsz
+    have e2 : (2 : Int64).toInt = 2 := by decide
+    have h2 : ((2 : Int64) + d.ndig).toInt = 2 + d.ndig.toInt := by
+      rw [i64_add _ _ (by omega) (by omega), e2]
+    have h9 : ((2 : Int64) + d.ndig + d.exp).toInt = 2 + d.ndig.toInt + d.exp.toInt := by
+      rw [i64_add _ _ (by omega) (by omega), h2]
+    simp only [hz, if_true]
+    by_cases hw : width > 2 + d.ndig + d.exp
+    · simp only [hw, decide_true, if_true]
+      have : (0 : Int) ≤ Go.idx width := by
+        show 0 ≤ width.toInt; omega
+      rw [makeBytes_eq _ _ (by omega) this]
+      simp only [ok_bind, Int.toNat_zero, Array.replicate_zero]
+      rw [← hbuf]; exact main
+    · simp only [hw, decide_false, Bool.false_eq_true, if_false]
+      have : (0 : Int) ≤ Go.idx (2 + d.ndig + d.exp) := by
+        have : ¬ (2 + d.ndig + d.exp).toInt < width.toInt := fun h => hw ((i64_lt _ _).mpr h)
+        show 0 ≤ (2 + d.ndig + d.exp).toInt; omega
+      rw [makeBytes_eq _ _ (by omega) this]
+      simp only [ok_bind, Int.toNat_zero, Array.replicate_zero]
+      rw [← hbuf]; exact main
+  · simp only [hz, Bool.false_eq_true, if_false]
+    exact main
 
 end Ly
